@@ -16,6 +16,7 @@ RULE = ("random digraphs as transition lists (n=1..60: self-loops, parallel edge
         "generated boards, and every call made by solve() on generated games; finals in any order with repetitions. "
         "A case is non-trivial when the graph has a self-loop on a non-final state, a parallel edge, or a state that reaches "
         "the finals through two different predecessors-paths (join); distinct = distinct (edges, finals) hash.")
+RULE += (' HUGE graphs (1.05e6-state chains, 1.2e6-state stars, complete digraphs with 2.56e6 transitions), int-subclass state numbers. THREADS class: the real code called from 3-4 threads of one interpreter (1 us switch interval, yield injection at every ~1000-3000th executed line), each concurrent outcome compared with the sequential outcome of the same process.')
 FLOOR = 500
 REQUIRED = ["rev.dfs_calls", "rev.tl_calls"]
 ASSUMPTIONS = ["final sets are non-empty and within range (the property's quantifier)",
